@@ -1,4 +1,5 @@
 /* Fixtures for R-ALLOC.size / R-ALLOC.pair.  Compiled only by the analyser. */
+#include <stdio.h>
 #include <string.h>
 #include "mpir.h"
 #include "gmp-impl.h"
@@ -94,4 +95,38 @@ fix_alloc_null_sentinel_bad (mp_ptr rp, mp_srcptr np, mp_size_t n, mp_ptr other)
   mpn_add_n (rp, np, np, n);
   if (other != NULL)
     (*__gmp_free_func) (tp, n * sizeof (mp_limb_t));
+}
+
+/* hand-over through a parameter's field: the callee allocates, the caller must free */
+struct fx_out { char *data; size_t size; };
+static void
+fx_fill (struct fx_out *o, size_t n)
+{
+  o->data = (char *) (*__gmp_allocate_func) (n);
+  o->size = n;
+  memset (o->data, 0, n);
+}
+
+/* positive: the failure exit forgets the block the callee left in o.data */
+int
+fix_handover_leak (FILE *fp, size_t n)
+{
+  struct fx_out o;
+  fx_fill (&o, n);
+  if (fwrite (o.data, n, 1, fp) != 1)
+    return 0;
+  (*__gmp_free_func) (o.data, o.size);
+  return 1;
+}
+
+/* negative twin */
+int
+fix_handover_good (FILE *fp, size_t n)
+{
+  struct fx_out o;
+  int ok;
+  fx_fill (&o, n);
+  ok = fwrite (o.data, n, 1, fp) == 1;
+  (*__gmp_free_func) (o.data, o.size);
+  return ok;
 }
